@@ -541,6 +541,9 @@ class ConnectHelper(Loggable):
 def _check_times(infos):
     t = None
     for _, info in infos.items():
+        if info.time is None:
+            # static slots have no time
+            continue
         if t is None:
             t = info.time
         elif t != info.time:
